@@ -25,15 +25,23 @@ struct Ctx {
     counter: usize,
 }
 
-const MODES: &[&str] = &["nohead", "nohead-ctx", "heading", "heading-ctx", "count", "l", "json", "files", "nohead-o"];
+const MODES: &[&str] = &["nohead", "nohead-ctx", "heading", "heading-ctx", "count", "count-matches", "l", "files-without-match", "json", "files", "nohead-o"];
+/// extra context flag crossed with every mode (the summary / JSON modes must ignore it)
+const CTXS: &[&str] = &["0", "0", "A2", "B1", "C1"];
 
 fn gen_tree_case(rng: &mut Rng, thorough: bool) -> String {
     let mode = *rng.pick(MODES);
     let crlf = matches!(mode, "nohead" | "nohead-ctx" | "heading" | "heading-ctx") && rng.chance(1, 8);
+    let ctx = if mode == "files" { "0" } else { *rng.pick(CTXS) };
+    let null = matches!(mode, "nohead" | "nohead-o" | "count" | "count-matches") && rng.chance(1, 6);
     format!(
-        "tree seed={} mode={} files={} big={} slow={} crlf={} reps={}",
+        "tree seed={} mode={} ctx={} ln={} null={} roots={} files={} big={} slow={} crlf={} reps={}",
         rng.below(1 << 30),
         mode,
+        ctx,
+        (mode != "files" && rng.chance(1, 4)) as u8,
+        null as u8,
+        rng.chance(1, 3) as u8,
         if rng.chance(1, 6) { rng.range(0, 2) } else { rng.range(2, 40) },
         rng.chance(1, 3) as u8,
         rng.chance(1, 6) as u8,
@@ -88,6 +96,8 @@ fn mode_args(mode: &str) -> Vec<&'static str> {
         "heading" => v.extend(["--heading", "--with-filename"]),
         "heading-ctx" => v.extend(["--heading", "--with-filename", "-C1"]),
         "count" => v.extend(["-c", "--with-filename"]),
+        "count-matches" => v.extend(["--count-matches", "--with-filename"]),
+        "files-without-match" => v.push("--files-without-match"),
         "l" => v.push("-l"),
         "json" => v.push("--json"),
         "files" => v.push("--files"),
@@ -151,7 +161,7 @@ fn parse(mode: &str, out: &[u8], names: &BTreeSet<String>) -> Result<Parsed, Str
         }
     };
     match mode {
-        "nohead" | "nohead-ctx" | "nohead-o" | "count" | "l" | "files" => {
+        "nohead" | "nohead-ctx" | "nohead-o" | "count" | "count-matches" | "l" | "files-without-match" | "files" => {
             for line in split_lines(out) {
                 let body = strip_eol(line);
                 if body == b"--" {
@@ -165,13 +175,13 @@ fn parse(mode: &str, out: &[u8], names: &BTreeSet<String>) -> Result<Parsed, Str
                     .iter()
                     .filter(|n| {
                         text.starts_with(n.as_str())
-                            && matches!(text.as_bytes().get(n.len()), None | Some(b':') | Some(b'-'))
+                            && matches!(text.as_bytes().get(n.len()), None | Some(b':') | Some(b'-') | Some(0))
                     })
                     .max_by_key(|n| n.len());
                 match path {
                     Some(path) => {
                         p.tags.push(format!("d{}", names.iter().position(|n| n == path).unwrap_or(0)));
-                        if matches!(mode, "count" | "l" | "files") {
+                        if matches!(mode, "count" | "count-matches" | "l" | "files-without-match" | "files") {
                             // one line per file: every line is a block of its own
                             if !p.blocks.is_empty() {
                                 p.seps.push(pending.pop());
@@ -252,15 +262,14 @@ fn parse(mode: &str, out: &[u8], names: &BTreeSet<String>) -> Result<Parsed, Str
     Ok(p)
 }
 
-fn sep_sx(mode: &str, drv: &mut Driver) -> String {
-    let (m, heading, ctx) = match mode {
-        "nohead" | "nohead-o" => ("standard", 0, 0),
-        "nohead-ctx" => ("standard", 0, 1),
-        "heading" => ("standard", 1, 0),
-        "heading-ctx" => ("standard", 1, 1),
-        _ => ("other", 0, 0),
+fn sep_sx(mode: &str, ctx: &str, drv: &mut Driver) -> String {
+    let c = (ctx != "0" || mode.ends_with("-ctx")) as u8;
+    let (m, heading) = match mode {
+        "nohead" | "nohead-o" | "nohead-ctx" => ("standard", 0),
+        "heading" | "heading-ctx" => ("standard", 1),
+        _ => ("other", 0),
     };
-    drv.ask(&format!("c08.filesep {} {} {} 2d2d", m, heading, ctx))
+    drv.ask(&format!("c08.filesep {} {} {} 2d2d", m, heading, c))
 }
 
 fn blocks_sx(blocks: &[(String, Vec<u8>)]) -> String {
@@ -288,7 +297,9 @@ fn run_tree(case: &str, ctx: &mut Ctx, drv: &mut Driver, rep: &mut Report) {
         return;
     };
     let mode = mode.as_str();
-    if !MODES.contains(&mode) {
+    let cflag = f.get("ctx").map_or("0", |v| v.as_str());
+    let (ln, null, roots) = (num("ln").unwrap_or(0), num("null").unwrap_or(0), num("roots").unwrap_or(0));
+    if !MODES.contains(&mode) || !CTXS.contains(&cflag) {
         rep.notes.push(format!("unparsable case: {}", case));
         return;
     }
@@ -296,6 +307,17 @@ fn run_tree(case: &str, ctx: &mut Ctx, drv: &mut Driver, rep: &mut Report) {
     let dir = fresh_dir(&ctx.scratch, &format!("t{}", ctx.counter));
     let tree = build_tree(&dir, seed, nfiles as usize, big == 1, crlf == 1);
     let names: BTreeSet<String> = tree.names.iter().cloned().collect();
+    // several root paths (files and directories, usually more than threads) instead of the implicit "."
+    let root_args: Vec<String> = if roots == 1 {
+        let mut v: Vec<String> = names.iter().map(|n| n.split('/').next().unwrap().to_string()).collect();
+        v.sort();
+        v.dedup();
+        if v.len() < 2 { vec![] } else { v }
+    } else {
+        vec![]
+    };
+    if !root_args.is_empty() { rep.branch(if root_args.len() > 3 { "roots:more-than-3" } else { "roots:2-3" }); }
+    if cflag != "0" { rep.branch(&format!("ctx-flag:{}:{}", cflag, if mode.starts_with("nohead") || mode.starts_with("heading") { "standard" } else { "summary-or-json" })); }
     let script = ctx.scratch.join("slowpre.sh");
     if !script.exists() {
         // perturbs the timing only: every third file (by the digit before ".txt") is delayed
@@ -304,12 +326,16 @@ fn run_tree(case: &str, ctx: &mut Ctx, drv: &mut Driver, rep: &mut Report) {
     let mk = |threads: usize, extra: &[&str]| -> Command {
         let mut c = Command::new(&ctx.rg);
         c.current_dir(&dir).args(mode_args(mode)).arg(format!("-j{}", threads)).args(extra);
+        if cflag != "0" { c.arg(format!("-{}", cflag)); }
+        if ln == 1 { c.arg("-n"); }
+        if null == 1 { c.arg("--null"); }
         if crlf == 1 { c.arg("--crlf"); }
         if slow == 1 && mode != "files" { c.arg("--pre").arg(&script); }
         if mode != "files" { c.arg("needle"); }
+        c.args(&root_args);
         c
     };
-    let sep = sep_sx(mode, drv);
+    let sep = sep_sx(mode, cflag, drv);
     let term = if crlf == 1 { "0d0a" } else { "0a" };
     let guard = drv.ask(&format!("c08.guard {} {}", sep, term)) == "1";
     let out1 = run_cmd(&mut mk(1, &[]), None);
@@ -348,7 +374,8 @@ fn run_tree(case: &str, ctx: &mut Ctx, drv: &mut Driver, rep: &mut Report) {
     }
     let mut orders: BTreeSet<Vec<String>> = BTreeSet::new();
     for r in 0..reps {
-        let n = 2 + ((seed as usize + 5 * r as usize) % 15);
+        // with several roots: few threads first (more roots than threads), then any
+        let n = if !root_args.is_empty() && r < 2 { 2 + r as usize } else { 2 + ((seed as usize + 5 * r as usize) % 15) };
         let outn = run_cmd(&mut mk(n, &[]), None);
         rep.eval();
         rep.branch(&format!("threads:{}", n));
@@ -364,7 +391,7 @@ fn run_tree(case: &str, ctx: &mut Ctx, drv: &mut Driver, rep: &mut Report) {
         };
         orders.insert(pn.blocks.iter().map(|(p, _)| p.clone()).collect());
         // the cut itself: the Lean parser of the block grammar (theorem parse_join) must cut at the same places
-        if matches!(mode, "nohead" | "nohead-ctx" | "nohead-o") && pn.tags.len() < 20000 {
+        if matches!(mode, "nohead" | "nohead-ctx" | "nohead-o") && null == 0 && pn.tags.len() < 20000 {
             let reply = drv.ask(&format!("c08.parse (lines {})", pn.tags.join(" ")));
             let mine = format!(
                 "blocks [{}] gaps [{}] stray {} 0",
@@ -586,7 +613,7 @@ fn run_failpre(case: &str, ctx: &mut Ctx, drv: &mut Driver, rep: &mut Report) {
         c.current_dir(&dir).args(mode_args(mode)).arg(format!("-j{}", threads)).arg("--pre").arg(&script).arg("needle");
         c
     };
-    let sep = sep_sx(mode, drv);
+    let sep = sep_sx(mode, "0", drv);
     let out1 = run_cmd(&mut mk(1), None);
     let outn = run_cmd(&mut mk(n), None);
     rep.eval();
@@ -665,7 +692,7 @@ fn main() {
         "C08",
         "tree: generated trees of 0-40 files (0-4000 lines each, match density 0-90%, up to 3 directory levels, optional slow \
          --pre on a third of the files, optional CRLF files with --crlf) searched with -j1 once and -jN (N in 2..16) 2x (thorough 6x) \
-         in modes no-heading, no-heading -C1, heading, heading -C1, -o, -c, -l, --json, --files; sort: --sort/--sortr path with -jN \
+         in modes no-heading, heading, -o, -c, --count-matches, -l, --files-without-match, --json, --files, each crossed with -A2/-B1/-C1/none, -n, --null (where lines stay newline-terminated) and with several root paths (files and directories, more roots than threads); sort: --sort/--sortr path with -jN \
          vs -j1; nulldata: the two-file --null-data -C1 witness; failpre: a --pre command that exits 3 after its output on a third of the files. Non-trivial: at least two non-empty blocks. Distinct by case text. \
          JSON blocks are compared after removing the elapsed-time fields and the summary line.",
     );
@@ -678,7 +705,7 @@ fn main() {
     }
     if args.replay.is_none() {
         let mut rng = Rng::new(args.seed);
-        let n = args.cases.unwrap_or(if args.thorough { 900 } else { 64 });
+        let n = args.cases.unwrap_or(if args.thorough { 900 } else { 90 });
         for i in 0..n {
             let case = if i % 8 == 7 {
                 format!("sort seed={} mode={} files={} n={} kind={}", rng.below(1 << 30), rng.pick(MODES), rng.range(2, 30), rng.range(2, 16),
@@ -694,6 +721,10 @@ fn main() {
             let mode = ["nohead", "heading", "nohead-ctx", "count", "json", "nohead"][i % 6];
             run_case(&format!("failpre seed={} mode={} files={} n={}", rng.below(1 << 30), mode, rng.range(6, 30), rng.range(2, 16)), &mut ctx, &mut drv, &mut rep);
         }
+    }
+    if watchdog_retries() > 0 {
+        rep.branches.insert("watchdog-retries".to_string(), watchdog_retries());
+        rep.notes.push(format!("{} child process(es) exceeded the {:?} watchdog and were re-run with twice the limit", watchdog_retries(), WATCHDOG));
     }
     rep.write(&args);
 }
